@@ -17,13 +17,13 @@ def jobs(tier):
         Job("roundtrip", M, "h_roundtrip", dict(C12_RT_TYPES=4), shards=61, timeout=t),
     ]
   return [
-      Job("law", M, "h_law", dict(C12_NLEAVES=5, C12_COMP=5, C12_DEPTH=2), shards=251, timeout=t),
-      Job("law-leaves7", M, "h_law", dict(C12_NLEAVES=7, C12_COMP=2, C12_DEPTH=2), shards=251, timeout=t,
-          note="seven leaf kinds, unions and lists only"),
+      Job("law", M, "h_law", dict(C12_NLEAVES=5, C12_COMP=4, C12_DEPTH=2), shards=251, timeout=t),
+      Job("law-leaves6", M, "h_law", dict(C12_NLEAVES=6, C12_COMP=2, C12_DEPTH=2), shards=251, timeout=t,
+          note="six leaf kinds, unions and lists only"),
       Job("law-all-leaves", M, "h_law", dict(C12_NLEAVES=12, C12_COMP=1, C12_DEPTH=1), shards=7, timeout=t),
       Job("perm", M, "h_perm", dict(C12_PDEPTH=2, C12_PNLEAVES=12, C12_PCOMP=5), shards=47, timeout=t),
       Job("perm-nested", M, "h_perm", dict(C12_PDEPTH=3, C12_PNLEAVES=2, C12_PCOMP=2, C12_PERM_INNER=2), shards=127, timeout=t),
-      Job("roundtrip", M, "h_roundtrip", dict(C12_RT_TYPES=16), shards=127, timeout=t),
+      Job("roundtrip", M, "h_roundtrip", dict(C12_RT_TYPES=12), shards=127, timeout=t),
   ]
 
 
